@@ -15,26 +15,37 @@ Lemma header_load_with_history_free bload s h1 h2 :
   (forall n, snd (header_load_with bload h1 s) = Ok n ->
              fst (header_load_with bload h1 s) = fst (header_load_with bload h2 s)).
 Proof.
+  destruct h1 as [a1 b1 c1 d1 e1 f1 g1 k1], h2 as [a2 b2 c2 d2 e2 f2 g2 k2].
   unfold header_load_with.
   destruct (negb (ascii_alphanumeric (firstn 16 s))); [split; [reflexivity | discriminate]|].
   destruct (length s <? 16)%nat; [split; [reflexivity | discriminate]|].
-  cbn [set_field field_len].
+  cbn [set_field field_len version_id key_usage algorithm mode_of_use version_num
+       exportability reserved blocks].
   destruct (version_supported (slice 0 1 s)); [|split; [reflexivity | discriminate]].
   destruct (negb (length (slice 5 2 s) =? 2)%nat || negb (ascii_alphanumeric (slice 5 2 s)));
     [split; [reflexivity | discriminate]|].
+  cbn [set_field field_len version_id key_usage algorithm mode_of_use version_num
+       exportability reserved blocks].
   destruct (negb (length (slice 7 1 s) =? 1)%nat || negb (ascii_alphanumeric (slice 7 1 s)));
     [split; [reflexivity | discriminate]|].
+  cbn [set_field field_len version_id key_usage algorithm mode_of_use version_num
+       exportability reserved blocks].
   destruct (negb (length (slice 8 1 s) =? 1)%nat || negb (ascii_alphanumeric (slice 8 1 s)));
     [split; [reflexivity | discriminate]|].
+  cbn [set_field field_len version_id key_usage algorithm mode_of_use version_num
+       exportability reserved blocks].
   destruct (negb (length (slice 9 2 s) =? 2)%nat || negb (ascii_alphanumeric (slice 9 2 s)));
     [split; [reflexivity | discriminate]|].
+  cbn [set_field field_len version_id key_usage algorithm mode_of_use version_num
+       exportability reserved blocks].
   destruct (negb (length (slice 11 1 s) =? 1)%nat || negb (ascii_alphanumeric (slice 11 1 s)));
     [split; [reflexivity | discriminate]|].
+  cbn [set_field field_len version_id key_usage algorithm mode_of_use version_num
+       exportability reserved blocks set_reserved set_blocks].
   destruct (negb (ascii_numeric (slice 12 2 s))); [split; [reflexivity | discriminate]|].
   destruct (int_of_dec (slice 12 2 s)) as [bn|e]; [|split; [reflexivity | discriminate]].
   destruct (bload (N.to_nat bn) (skipn 16 s)) as [d r].
-  cbn [fst snd set_blocks set_reserved version_id key_usage algorithm mode_of_use version_num
-       exportability reserved blocks].
+  cbn [fst snd].
   split; reflexivity.
 Qed.
 
